@@ -677,6 +677,11 @@ def order_formula(I, ctx, op, a, b):
         return lex_formula(I, ctx, op, list(a.items), list(b.items))
     if isinstance(a, ListVal) and isinstance(b, ListVal):
         return lex_formula(I, ctx, op, list(a.items), list(b.items))
+    if isinstance(a, (FmtStr, str)) and isinstance(b, (FmtStr, str)):
+        from . import strings
+        lt = strings.fmt_lt(I, ctx, a, b) if isinstance(op, (ast.Lt, ast.GtE)) else strings.fmt_lt(I, ctx, b, a)
+        # a < b | a >= b = not (a < b) | a > b = b < a | a <= b = not (b < a)
+        return smt.simp(lt if isinstance(op, (ast.Lt, ast.Gt)) else z3.Not(lt))
     raise Unsupported(f"ordering {op.__class__.__name__} on {a!r}, {b!r} at {ctx.where}")
 
 
